@@ -47,6 +47,9 @@ struct Scenario {
     /// threads also write/read the global choice concurrently (then a record may come out in
     /// either form)
     register: bool,
+    /// nothing but the very first accesses to the process-wide choice, racing: one thread writes,
+    /// one reads, nobody has touched it before (lazy-initialisation windows exist once per process)
+    first_touch: bool,
     threads: Vec<Vec<Call>>,
 }
 
@@ -65,6 +68,9 @@ fn frags(rng: &mut Rng, t: usize, c: usize) -> Vec<String> {
 
 fn generate(scen_seed: u64) -> Scenario {
     let mut rng = Rng::new(run_seed(0xC19, 0x3141, scen_seed));
+    if rng.chance(1, 8) {
+        return Scenario { pass: false, register: false, first_touch: true, threads: vec![] };
+    }
     let nthreads = rng.range(2, 4);
     let register = rng.chance(1, 3);
     let mut threads = Vec::new();
@@ -90,7 +96,7 @@ fn generate(scen_seed: u64) -> Scenario {
         }
         threads.push(calls);
     }
-    Scenario { pass: rng.chance(1, 2), register, threads }
+    Scenario { pass: rng.chance(1, 2), register, first_touch: false, threads }
 }
 
 struct Frag<'a>(&'a str);
@@ -217,8 +223,31 @@ fn register_stress(bad: &std::sync::Mutex<Vec<String>>, rounds: usize) {
     }
 }
 
+fn first_touch_race() -> i32 {
+    let w = std::thread::spawn(|| ColorChoice::Never.write_global());
+    let r = std::thread::spawn(|| code_of(ColorChoice::global()));
+    w.join().unwrap();
+    let seen = r.join().unwrap();
+    let fin = ColorChoice::global();
+    let mut bad = Vec::new();
+    if seen != 0 && seen != 3 {
+        bad.push(format!("first read returned {:?}: neither the initial value nor the only value written", choice_of(seen)));
+    }
+    if fin != ColorChoice::Never {
+        bad.push(format!("the only write (Never) had completed, yet global() = {fin:?}"));
+    }
+    if !bad.is_empty() {
+        let _ = std::io::stderr().write_all(format!("\n#REGISTER-VIOLATION first touch: {}\n", bad.join("; ")).as_bytes());
+        return 3;
+    }
+    0
+}
+
 fn child(scen_seed: u64) -> i32 {
     let sc = std::sync::Arc::new(generate(scen_seed));
+    if sc.first_touch {
+        return first_touch_race();
+    }
     let bad = std::sync::Arc::new(std::sync::Mutex::new(Vec::<String>::new()));
     if sc.register {
         register_stress(&bad, 40);
@@ -364,6 +393,9 @@ fn json_str(s: &str) -> String {
 }
 
 fn scenario_text(sc: &Scenario) -> String {
+    if sc.first_touch {
+        return "first-touch race on the global colour choice: T0 write_global(Never) | T1 global()".into();
+    }
     let mut s = format!("mode={} register={} ", if sc.pass { "pass-through" } else { "strip" }, sc.register);
     for (t, calls) in sc.threads.iter().enumerate() {
         s.push_str(&format!("| T{t}:"));
